@@ -34,7 +34,7 @@ def thresholds(tier):
 
 
 def knobs_for(rng):
-  return {"depth": rng.choice([0, 1, 1, 2]), "max_children": rng.choice([1, 2, 3]), "p_ff": 0.15, "p_connect": rng.choice([0.6, 0.8]), "p_connect_reset": rng.choice([0, 0.4]),
+  return {"depth": rng.choice([0, 1, 1, 2]), "max_children": rng.choice([1, 2, 3]), "p_ff": 0.15, "p_connect": rng.choice([0.6, 0.8]), "p_connect_reset": rng.choice([0, 0.4]), "p_const_generic": rng.choice([0, 0.5]), "p_const": rng.choice([0, 0.15]),
           "p_split": rng.choice([0.4, 0.7]), "p_struct": 0.4, "max_sigs": rng.choice([4, 6]), "expr_depth": 1, "p_if": 0.1,
           "p_nested_field": rng.choice([0, 0.3]), "p_list_field": rng.choice([0, 0.3]), "p_func": rng.choice([0, 0.3]), "p_shadow": 0.3, "p_nested_slice": rng.choice([0, 0.5]), "p_omit_bounds": rng.choice([0, 0.6]), "p_vfunc": rng.choice([0, 0.4]), "p_subclass": rng.choice([0, 0.5])}
 
@@ -104,6 +104,7 @@ def observed_nets(top):
 def run_case(sh, case):
   rng = sh.rng("design", case)
   d = G.generate(rng, knobs_for(rng))
+  for sk, sv in d.get("stats", {}).items(): sh.count(sk, sv)
   ref = G.Ref(d)
   exp, edges = expected_nets(d, ref)
   if any(v == "<generator-ambiguous>" for v in exp.values()):
@@ -166,7 +167,11 @@ def run_case(sh, case):
           return live.sig(name) if "const:" not in name else int(name.split(":")[1])
         for cyc, inp in enumerate(seq):
           M.set_inputs(top, live, inp, widths, int(cyc < 1))
-          top.sim_eval_combinational()
+          try:
+            top.sim_eval_combinational()
+          except Exception as e:
+            sh.violation("simulation-of-a-legal-net-structure-raised", {"error": f"{type(e).__name__}: {str(e)[:200]}", "cycle": cyc, "design_source": src}, case=case)
+            return
           for members, w in nets.items():
             wv = val(w)
             for m in members:
